@@ -38,6 +38,7 @@ ASSUMPTIONS = [
 ]
 CASE_TIMEOUT = 900
 HB_MSG = "Heartbeat wasn't received."
+BATCH = 2
 
 
 def cases(seed, tier):
@@ -48,7 +49,8 @@ def cases(seed, tier):
         prng = random.Random(rng.getrandbits(64))
         if i % 3 == 2:
             out.append({'part': 'integrity',
-                        'kind': prng.choice(['with-items', 'subwf']),
+                        'kind': prng.choice(['with-items', 'subwf',
+                                             'subwf2-rerun']),
                         'delay': prng.choice([20, 20, 5, -1]),
                         'n_items': prng.randint(2, 4),
                         'strategy': {'name': prng.choice(['fifo', 'random']),
@@ -68,6 +70,10 @@ def cases(seed, tier):
                                       for _ in range(3)],
                         'beat': [prng.random() < 0.4 for _ in range(k)],
                         'handled': [prng.random() < 0.5 for _ in range(k)],
+                        # expired stand-alone action executions without a
+                        # task (the checker skips them): as many as a
+                        # batch, or more
+                        'orphans': prng.choice([0, 0, 0, 2, 3]),
                         'strategy': {'name': prng.choice(['fifo', 'random',
                                                           'lifo']),
                                      'seed': prng.randint(0, 10 ** 6)},
@@ -123,7 +129,7 @@ def heartbeat_part(case, res):
          'scheduler': case['scheduler'], 'uuid_seed': case['uuid_seed'],
          'config': {'action_heartbeat': {
              'max_missed_heartbeats': max_missed, 'check_interval': interval,
-             'first_heartbeat_timeout': case['first'], 'batch_size': 2}}}
+             'first_heartbeat_timeout': case['first'], 'batch_size': BATCH}}}
     admin = auth_context.MistralContext(user_id=None, project_id=None,
                                         auth_token=None, is_admin=True)
     state = {'passes': []}
@@ -147,7 +153,7 @@ def heartbeat_part(case, res):
                 return False
             # heartbeats for the chosen subset, "now"
             cand = [a for a in acts.values() if a['state'] == 'RUNNING' and
-                    a.get('is_sync')]
+                    a.get('is_sync') and a.get('task_execution_id')]
             if cand:
                 # place the clock relative to the threshold of one candidate
                 ref = min(_sec(a['last_heartbeat']) for a in cand)
@@ -159,6 +165,9 @@ def heartbeat_part(case, res):
             expect = {}
             for a in w.rec.rows['action'].values():
                 age = (now - _sec(a['last_heartbeat'])).total_seconds()
+                if not a.get('task_execution_id'):
+                    expect[a['id']] = 'either'      # nothing to move on
+                    continue
                 if a['state'] == 'RUNNING' and a.get('is_sync') and \
                         not disabled:
                     if age >= T + 1:
@@ -203,11 +212,36 @@ def heartbeat_part(case, res):
                           wf_action=False)
         state['late'] = [a['id'] for a in late]
         return True
-    phases = [beat_phase]
+    def orphan_phase(w):
+        if not case.get('orphans'):
+            return False
+        from mistral.db.v2 import api as db_api
+        auth_context.set_ctx(admin)
+        try:
+            with db_api.transaction():
+                for i in range(case['orphans']):
+                    db_api.create_action_execution({
+                        'id': 'orphan-%04d-%d' % (case['uuid_seed'] % 10000,
+                                                  i),
+                        'name': 'std.noop', 'state': 'RUNNING',
+                        'is_sync': True, 'input': {}, 'runtime_context': {},
+                        'last_heartbeat': boot.CLOCK.now() -
+                        datetime.timedelta(days=30),
+                        'project_id': 'p1'})
+        finally:
+            auth_context.set_ctx(None)
+        w.rec.snapshot('orphans')
+        state['orphans'] = case['orphans']
+        return True
+    phases = [orphan_phase, beat_phase]
     for pos in case['positions']:
         phases.append(make_pass(pos))
     phases.append(late_phase)
-    phases.append(make_pass(10 ** 5))
+    # far beyond every threshold, as many passes as there are actions:
+    # whatever the batch size, by then every lost action must have been
+    # failed (bounded progress)
+    for _ in range(len(case['kinds']) + 2):
+        phases.append(make_pass(10 ** 5))
     run = ec.execute(c, phases=phases, exc_allow=('ValueError',))
     res['executions'] += 1
     ec.merge_counts(res['events'], run.events)
@@ -237,11 +271,19 @@ def heartbeat_part(case, res):
             a = run.rows['action'].get(aid) or {}
             label = '%s(%s)' % ((a.j('input') or {}).get('t'),
                                 'sync' if a.get('is_sync') else 'async')
-            if want == 'must' and aid not in changed:
+            last = pi == len(state['passes']) - 1
+            if want == 'must' and aid not in changed and \
+                    (len(changed) < BATCH or last):
+                # a pass may stop at its batch size; one that failed fewer
+                # actions than a batch left this one out for no reason, and
+                # after the final passes nothing may be left
                 viol('silent-action-not-expired',
                      'pass %d (clock at threshold%+d): RUNNING sync action '
-                     '%s older than the threshold was not failed' % (
-                         pi, p['pos'], label))
+                     '%s older than the threshold was not failed (the pass '
+                     'failed %d actions, batch size %d%s)' % (
+                         pi, p['pos'], label, len(changed), BATCH,
+                         '; last of %d passes' % len(state['passes'])
+                         if last else ''))
             if want == 'must-not' and aid in changed:
                 viol('action-expired-wrongly',
                      'pass %d (clock at threshold%+d): action %s (%s '
@@ -314,7 +356,117 @@ child:
 """
 
 
+SUB2_WF = """version: '2.0'
+wf:
+  tasks:
+    t1:
+      workflow: mid
+      on-success: [t2]
+    t2:
+      action: verif.act
+      input: {t: t2}
+mid:
+  tasks:
+    m1:
+      workflow: leaf
+leaf:
+  tasks:
+    c1:
+      action: verif.act
+      input: {t: c1}
+"""
+
+
+def integrity_rerun_part(case, res):
+    """Three nested workflows; the leaf fails (everything ERROR, the pending
+    integrity checks see finished executions and stop), the leaf task is
+    rerun successfully, and the result of the middle workflow never reaches
+    the root's task: the integrity check of the *root* (two levels above the
+    rerun) must complete it."""
+    delay = 20
+
+    def mk(lose):
+        st = {'lost': 0, 'rerun': False}
+
+        def settle(w):
+            # let the integrity checks of the failed tree fire and stop
+            if st['rerun'] or not w.root() or \
+                    w.root()['state'] != 'ERROR':
+                return False
+            boot.CLOCK.advance(130)
+            w.rec.emit('CLOCK', to=boot.CLOCK.rel())
+            w.store_poll()
+            return True
+
+        def rerun(w):
+            c1 = [t for t in w.rec.rows['task'].values()
+                  if t['name'] == 'c1' and t['state'] == 'ERROR']
+            if st['rerun'] or not c1:
+                return False
+            st['rerun'] = True
+            w.outcome_rules.insert(0, {'t': 'c1', 'outcome': ['ok', 'R']})
+            w.op_rerun(c1[0]['id'], reset=True)
+            return True
+
+        def hook(w):
+            if not lose:
+                return
+
+            def flt(msg):
+                if st['rerun'] and msg.method == 'on_action_complete' and \
+                        msg.raw.get('wf_action') and st['lost'] == 0:
+                    x = w.rec.rows['wf'].get(msg.raw.get('action_ex_id'))
+                    if x is not None and x['workflow_name'] == 'mid':
+                        st['lost'] += 1
+                        return 'drop'
+            w.msg_filter = flt
+            w.drop_sync_silently = True
+        c = {'definitions': [{'kind': 'wf', 'text': SUB2_WF}],
+             'start': {'wf': 'wf', 'input': {}},
+             'outcomes': [{'t': 'c1', 'outcome': ['err', 'E-c1']}],
+             'strategy': case['strategy'], 'scheduler': case['scheduler'],
+             'uuid_seed': case['uuid_seed'],
+             'config': {'engine': {'execution_integrity_check_delay':
+                                   delay}}}
+        run = ec.execute(c, setup_hook=hook,
+                         phases=[settle, settle, rerun])
+        return run, st
+    base, _ = mk(False)
+    res['executions'] += 1
+    if base.inconclusive:
+        res['inconclusive'] = 'base: ' + base.inconclusive
+        return
+    run, st = mk(True)
+    res['executions'] += 1
+    ec.merge_counts(res['events'], run.events)
+    ec.merge_counts(res['monitor_evaluations'], run.mon_evals)
+    res['interleavings'].append(run.ihash)
+    res['monitor_evaluations']['integrity-recovery'] += 1
+    res['keys'].append(['subwf2-rerun', delay, 0, run.ihash])
+    if run.inconclusive:
+        res['inconclusive'] = run.inconclusive
+        return
+    if st['lost'] != 1 or not st['rerun']:
+        res['inconclusive'] = 'rerun=%s, hand-off lost %d times' % (
+            st['rerun'], st['lost'])
+        return
+    for v in run.violations:
+        if v.get('monitor') != 'quiescence':
+            res['violations'].append(dict(v, lost='subwf2-rerun'))
+    d = nf_mod.diff(base.state_nf, run.state_nf)
+    if d:
+        res['violations'].append({
+            'prop': 'C20', 'monitor': 'integrity-recovery',
+            'mech': 'stuck-task-not-recovered', 'lost': 'subwf2-rerun',
+            'delay': delay,
+            'msg': 'root -> mid -> leaf, leaf failed and was rerun, the '
+                   'result of mid was lost: after the integrity check the '
+                   'run differs from the loss-free run: %s' % d})
+
+
 def integrity_part(case, res):
+    if case['kind'] == 'subwf2-rerun':
+        return integrity_rerun_part(case, res)
     kind, delay = case['kind'], case['delay']
     base_case = {
         'definitions': [{'kind': 'wf',
